@@ -476,6 +476,10 @@ fn check_semantic(rep: &Report, rng: &mut Rng, core: Option<usize>) {
     let pre = rng.below(6);
     let post = rng.below(4);
     let mut lines: Vec<String> = vec!["x: db 5".into(), "w: dw 7".into(), "def f {".into(), "mov ax,1".into(), "}".into(), "start:".into()];
+    // macros whose expansion carries the defect to the use site (positions inside the expansion are not source positions)
+    lines.insert(2, "macro mjmp(t) -> mov si,1 mov di,2 mov si,3 mov di,4 jmp t <-".into());
+    lines.insert(3, "macro mimm(v) -> mov al,v <-".into());
+    lines.insert(4, "macro mout(t) -> mjmp(t) <-".into());
     for i in 0..pre {
         lines.push(format!("mov si,{}", 100 + i));
         if rng.chance(1, 3) {
@@ -496,6 +500,11 @@ fn check_semantic(rep: &Report, rng: &mut Rng, core: Option<usize>) {
         ("in al,5", "unsupported-instruction"),
         ("start: mov ax,1", "duplicate-label"),
         ("shl ax,300", "constant-range"),
+        ("mjmp(nowhere3)", "undefined-label-in-macro"),
+        ("mjmp(a_rather_long_label_name_that_is_not_defined_anywhere)", "undefined-label-in-macro"),
+        ("mout(nowhere4)", "undefined-label-in-nested-macro"),
+        ("mimm(300)", "constant-range-in-macro"),
+        ("mjmp(x)", "jump-to-data-in-macro"),
     ]);
     lines.push(bad.to_string());
     let bad_line = lines.len();
@@ -517,7 +526,7 @@ fn check_semantic(rep: &Report, rng: &mut Rng, core: Option<usize>) {
         return;
     }
     // duplicate definitions may cite either definition
-    let accept: Vec<usize> = if class == "duplicate-label" { vec![bad_line, 6] } else { vec![bad_line] };
+    let accept: Vec<usize> = if class == "duplicate-label" { vec![bad_line, 9] } else { vec![bad_line] };
     let head = plain.find(bad).map(|i| &plain[..i]).unwrap_or(&plain[..]);
     let nums = ints(head);
     let fail = |sig: String, what: String| {
